@@ -14,7 +14,7 @@ func init() {
 	register(&Def{
 		ID:    "C08",
 		Level: "exploration",
-		Rule: "all 22 instantiations of FloatAsSigned / FloatAsUnsigned; float32 sources: every non-NaN bit pattern in ascending order in the thorough tier (11 destinations x 4278190082 values, segments stitched by one overlapping value), a stride sample of that order + boundary lists in the quick tier; float64 sources: values adjacent (3 neighbours each side) to +-2^k and +-1.5*2^k for k=-70..70, to +-1, 0, multiples of 127/128/255/256/32767/.../2^63/2^64, quotients next to integers and halves of the full scales, +-Inf, subnormals, and seeded random values in and far outside [-1,1]; " +
+		Rule: "all 22 instantiations of FloatAsSigned / FloatAsUnsigned; float32 sources: every non-NaN bit pattern in ascending order in the thorough tier (11 destinations x 4278190082 values, segments stitched by one overlapping value), a stride sample of that order + boundary lists in the quick tier; float64 sources: values adjacent (3 neighbours each side) to +-2^k and +-1.5*2^k for k=-70..70, to +-1, 0, multiples of 127/128/255/256/32767/.../2^63/2^64, quotients next to integers and halves of the full scales, +-Inf, subnormals, and seeded random values in and far outside [-1,1]; per instantiation also a re-conversion sequence on ONE source object: a whole buffer strictly inside full scale, then samples at and beyond full scale (+-1, +-1.5, +-Inf, 1e30, -3) put in through a second view of its storage only, and back, seven conversions in all" +
 			"oracle: x>=1 -> highest code, x<=-1 -> lowest code, +-0 -> zero-amplitude code, otherwise result amplitude within [ceil(p)-1, floor(p)+1] of the exact product p = x*full-scale (128-bit integer arithmetic from the float's mantissa/exponent, cross-checked against big.Rat), and results non-decreasing along the ascending enumeration; " +
 			"distinct = (instantiation, input value) pairs enumerated once; every pair is non-trivial; " +
 			"also: conversions into a shorter destination with spare capacity first, sources last written as a whole by another conversion and then filled through a second view",
@@ -252,6 +252,7 @@ func runC08(c *core.Ctx) {
 					inRange = append(inRange, f)
 				}
 			}
+			inRange0 := inRange
 			extraPass = true
 			for _, blk := range [][]float64{{1}, {-1}, {0.5, 1, -1, 0.25, 1, -0.5}, {1, 1, 1}} {
 				buf = buf[:0]
@@ -271,6 +272,38 @@ func runC08(c *core.Ctx) {
 				process(buf)
 				inRange = inRange[n:]
 				c.Obs("blocks_without_any_sample_outside_full_scale", 1)
+			}
+			// the same source object converted again and again: a whole buffer
+			// strictly inside full scale, then samples at and beyond full scale put
+			// in through a second view of its storage (and back), so that nothing
+			// remembered about the earlier contents may be used
+			var strict []float64
+			for _, f := range inRange0 {
+				if f > -1 && f < 1 {
+					strict = append(strict, f)
+				}
+			}
+			if len(strict) > 0 {
+				inside := make([]uint64, chunkN)
+				outside := make([]uint64, chunkN)
+				outs := []float64{1.5, -1.5, math.Inf(1), math.Inf(-1), 1, -1, 0.5, -0.25, 1e30, -3}
+				for i := range inside {
+					inside[i] = math.Float64bits(strict[(i*7)%len(strict)])
+					o := outs[i%len(outs)]
+					if cv.S.Bits == 32 {
+						o = float64(float32(o)) // a value the source type can hold
+					}
+					outside[i] = math.Float64bits(o)
+				}
+				for _, step := range []struct {
+					via int
+					in  []uint64
+				}{{0, inside}, {1, outside}, {1, inside}, {0, outside}, {0, inside}, {1, inside}, {1, outside}} {
+					sc.fillVia = step.via
+					have = false
+					process(step.in)
+				}
+				sc.fillVia = 0
 			}
 			have = false
 			extraPass = false
